@@ -34,6 +34,22 @@ PLANS = {
                        "stub": ["table sources (sim database, scripted and gated)", "sink (collecting)", "cobra command, config file, printers (not run)"]},
         "assumptions": ["reference nested-loop SQL join in /verif/sim/model.go", "testing/synctest quiescence (go1.26.8 runtime)"],
     },
+    "C05": {
+        "level": "exploration",
+        "technique": "deterministic simulation: LIMIT / ORDER BY queries (top level, subquery, WITH) over gated simulator tables run through RunE's own tail and the real printers in all five output modes; seeded interleavings of join inputs, retraction-bearing inputs (outer joins, counting triggers, changelog tables), clock jumps for the live table; oracle reads the printed rows",
+        "level_text": ("seeded exploration of (query shape x nesting x ORDER BY keys x LIMIT n incl. 0 x output mode x optimiser flag) x generated tables x message interleavings of the inputs: "
+                       "the printed rows must be exactly min(n, rows) rows of the reference result (multiplicities respected), in sort order and the first n of the sort order under ORDER BY"),
+        "level_note": ("trusted: reference result (nested-loop join, batch grouping, distinct), decoding of the printed text for ints/NULL/identifiers; the code from sqlparser.Parse to sink.Run is RunE's own, "
+                       "copied at build time by tools/mkoverlay into cmd.SimRunQuery; the schedule-free part of the statement (a single batch table) is explored too but is not what this technique adds"),
+        "parts": [{"check": "c05", "quick": 40000, "thorough": 2500000}],
+        "rule": ("each run draws a base query (single table, inner join, left/right/full outer join, GROUP BY with a counting trigger, DISTINCT, changelog table with retractions), a nesting "
+                 "(top level, subquery, subquery + outer LIMIT, subquery LIMIT + outer ORDER BY, WITH, ORDER BY only), 0-2 sort keys with directions, n from {0,1,2,3,4,6,9,100}, one of the five output modes, "
+                 "tables and the interleaving of the sources; non-trivial = at least 2 input messages; distinct = distinct (shape tuple, tables+schedule) pairs"),
+        "components": {"real": ["cmd/root.go RunE from sqlparser.Parse to sink.Run (build-time copy)", "parser", "typecheck", "optimizer", "physical.Materialize", "nodes.Limit/OrderSensitiveTransform/StreamJoin/OuterJoin/CustomTriggerGroupBy/Distinct",
+                                "outputs/batch, outputs/eager, outputs/stream printers", "formats table/csv/json"],
+                       "stub": ["table sources (sim database, scripted and gated)", "stdout (captured)", "config file, plugin discovery, telemetry (not run)"]},
+        "assumptions": ["reference result computed in /verif/sim", "testing/synctest quiescence and fake clock (go1.26.8 runtime)"],
+    },
     "C15": {
         "level": "exploration",
         "technique": "deterministic simulation: seeded valid changelogs (and, for joins, seeded two-input schedules) fed to each real execution node; running-multiset monitor plus batch reference operator",
